@@ -7,7 +7,7 @@ from bsrules.lib import *
 META = {
     "explanation": (
         "Static analysis over rustc MIR. Decides dispatch agreement, exhaustively over the 9 expression variants and 3 prefix characters: in DqeExecutor::apply_dqe each operator variant (Field, Index, Slice, Deref, Address, Canonic) applies exactly the same-named Value operator to the results of the recursive evaluation of its own inner expression, with its own operands in order, and the three leaf variants go to their evaluators; in the parser `*` builds Deref, `&` builds Address, `~` builds Canonic, `.f` builds Field, `[lit]` Index and `[a..b]` Slice(a, b) around the expression parsed so far."
-        " Also: slice/index algebra (positional selection, pointer-slice arithmetic), composite literal arity compared before element-wise matching, integer payloads compared with the literal without wrapping casts."
+        " Also: slice/index algebra (positional selection, pointer-slice arithmetic), composite literal arity compared before element-wise matching, integer payloads compared with the literal without wrapping casts; the address recorded for each element / member (what `&x` yields and `*&x` re-reads) is the address of exactly the bytes shown."
     ),
     "not_decided": "operator precedence, slice arithmetic, key matching, canonical-text round trip (value- and text-level)",
     "assumptions": [],
@@ -222,7 +222,8 @@ def _alg(g, e):
                 return ("clamp", rest[0])
         return ("call", nm) + tuple(args)
     if k == "multi":
-        return ("multi",) + tuple(sorted({repr(_alg(g, x)) for x in e[1]}))
+        alts = {repr(t): t for t in (_alg(g, x) for x in e[1])}
+        return ("multi",) + tuple(alts[k] for k in sorted(alts))
     if k == "agg":
         return ("agg", e[3] or e[2]) + tuple(_alg(g, x) for x in e[4])
     return ("?",)
@@ -370,6 +371,145 @@ def _slice_rest(ck, prog):
         ck.ob("table.slice_arith", "Value::index/position<len", guard, "", g.loc(c.bb))
 
 
+def _strip_conv(t):
+    """drop fallible-conversion wrappers (ok(try_from(x)), checked ops already normalised) from a term"""
+    if isinstance(t, tuple):
+        if t[0] == "call" and t[1] in ("ok", "try_from", "try_into") and len(t) == 3:
+            return _strip_conv(t[2])
+        return tuple(_strip_conv(x) for x in t)
+    return t
+
+
+def _addr_offset(prog, g, t):
+    """(base, offset) of an address term: Some(base + off) | Some(base) | map(base_opt, |a| a + off)"""
+    if isinstance(t, tuple) and t[:2] == ("agg", "Some") and len(t) == 3:
+        x = t[2]
+        if isinstance(x, tuple) and x[0] == "add":
+            return ("sum", x[1:], None)
+        return ("plain", x, None)
+    if isinstance(t, tuple) and t[:2] == ("call", "map") and len(t) == 4 and isinstance(t[3], tuple) and t[3][0] == "agg":
+        clo = prog.fns.get(t[3][1])
+        if clo is None:
+            return None
+        # closure body: its return value as a term over arg2 (the base address) and the captures
+        rets = [rv for i, j, pl, rv, sp in clo.assigns() if pl[0] == 0 and len(pl) == 1]
+        if len(rets) != 1:
+            return None
+        body = _strip_conv(_alg(clo, expr_of(clo, 0, depth=20)))
+        ups = clo.raw.get("upvars", [])
+        caps = dict(zip(["up:" + u.lstrip("*") for u in ups], t[3][2:]))
+        return ("closure", body, caps)
+    return None
+
+
+def rule_element_address(ck):
+    """wherever the debugger carves an element/member out of fetched bytes, the debuggee address recorded for it is the
+    address of those same bytes: offset of the byte range == offset added to the base address; a value read at P records P"""
+    prog = ck.prog
+    ck.rule("table.element_address", "every ObjectBinaryRepr built for an element or member records the debuggee address of exactly the bytes it carries: bytes read at P record Some(P); bytes cut at offset o of a buffer whose base address is B record B+o (chunks(sz).enumerate(): o = i*sz with the same sz; data[a..b]: o = a); `&x`, `*&x`, setVariable and watchpoints on elements all go through this address")
+    sites = []
+    for p, g in sorted(prog.fns.items()):
+        if not (p.startswith("debugger::variable") or p.startswith("debugger::debugee::dwarf::r#type")):
+            continue
+        for i, j, pl, rv, sp in g.assigns():
+            if rv["r"] == "agg" and rv.get("name", "").endswith("ObjectBinaryRepr"):
+                sites.append((p, g, i, rv))
+    ck.floor("table.element_address", "ObjectBinaryRepr constructions in the value readers", len(sites), 14)
+    nth = {}
+    for p, g, i, rv in sites:
+        ck.saw(g)
+        owner = re.sub(r"(::\{closure#\d+\})+$", "", p)
+        n = nth.get(owner, 0)
+        nth[owner] = n + 1
+        key = f"{short(owner)}#{n}"
+        flds = dict(zip(rv.get("fields", []), rv["ops"]))
+        data = _strip_conv(_alg(g, expr_of(g, flds["raw_data"], depth=40)))
+        addr = _strip_conv(_alg(g, expr_of(g, flds["address"], depth=40)))
+        if addr == ("agg", "None"):
+            ck.ob("table.element_address", f"{key}/no-address", True, "value without a debuggee address", g.loc(i))
+            continue
+        ds = repr(data)
+        # (A) bytes read from debuggee memory at P
+        reads = _find_calls(data, "read_memory_by_pid")
+        if reads:
+            P = reads[0][3] if len(reads[0]) > 3 else None
+            ao = _addr_offset(prog, g, addr)
+            ok = len(reads) == 1 and ao is not None and ao[0] == "plain" and ao[1] == P
+            ck.ob("table.element_address", f"{key}/read-at-P-records-P", ok, f"read at {P}, address {addr}", g.loc(i), what="a value read from debuggee memory at P records a different address than P")
+            continue
+        # (B) data[a..b] of a buffer
+        idx = _find_calls(data, "index") + _find_calls(data, "slice")
+        rng = [c for c in idx if len(c) >= 4 and isinstance(c[3], tuple) and c[3][:2] == ("agg", "Range")]
+        if rng:
+            a, b = rng[0][3][2], rng[0][3][3]
+            ao = _addr_offset(prog, g, addr)
+            off = None
+            if ao and ao[0] == "sum":
+                off = [x for x in ao[1] if x != a]
+                ok = a in ao[1] and len(off) == 1
+            elif ao and ao[0] == "closure":
+                body, caps = ao[1], ao[2]
+                # body = add(arg2, up:X) (possibly through signed casts); the captured X must equal `a`
+                lv = [x for x in _leaves(body) | ({body} if not isinstance(body, tuple) else set()) if isinstance(x, str) and x.startswith("up:")]
+                ok = isinstance(body, tuple) and body[0] == "add" and "arg2" in body[1:] and len(lv) == 1 and _strip_conv(caps.get(lv[0])) == a
+                off = [caps.get(lv[0])] if lv else None
+            else:
+                ok = False
+            ck.ob("table.element_address", f"{key}/address-offset==byte-range-start", ok, f"bytes [{a} ..), address {addr if not ao or ao[0] != 'closure' else ('base + ', off)}", g.loc(i), what="the address recorded for an element is not the address of the bytes shown for it")
+            continue
+        # (C) chunk i of chunks(sz).enumerate()
+        if isinstance(data, tuple) and data[:2] == ("call", "slice_ref") and data[3] == ("field", "arg2", (".1",)):
+            ao = _addr_offset(prog, g, addr)
+            term = None
+            if ao and ao[0] == "sum":
+                term = [x for x in ao[1] if isinstance(x, tuple) and x[0] == "mul"]
+                term = term[0] if len(term) == 1 else None
+            elif ao and ao[0] == "closure":
+                body, caps = ao[1], ao[2]
+                lv = [x for x in _leaves(body) if isinstance(x, str) and x.startswith("up:")]
+                if isinstance(body, tuple) and body[0] == "add" and "arg2" in body[1:] and len(lv) == 1:
+                    term = caps.get(lv[0])
+            szs = [x for x in (term[1:] if term else ()) if x != "arg2"]
+            ok = term is not None and term[0] == "mul" and "arg2" in term[1:] and len(szs) == 1
+            # the chunk size of the producing chunks() call is that same size
+            same = False
+            if ok:
+                par = prog.fns.get(re.sub(r"::\{closure#\d+\}$", "", p))
+                chain = [g] + ([par] if par else [])
+                # resolve the capture in the parent
+                szname = szs[0]
+                for h in chain:
+                    for c in h.calls():
+                        if c.name.endswith("::chunks") or c.name.endswith("::chunks_exact"):
+                            ct = _strip_conv(_alg(h, expr_of(h, c.args[1], depth=30)))
+                            if h is g:
+                                same = same or ct == szname
+                            else:
+                                cl = [r2 for i2, j2, pl2, r2, sp2 in h.assigns() if r2["r"] == "agg" and r2.get("kind") == "closure" and r2.get("name") == p]
+                                ups = g.raw.get("upvars", [])
+                                for r2 in cl:
+                                    cap = dict(zip(["up:" + u.lstrip("*") for u in ups], r2["ops"]))
+                                    if szname in cap:
+                                        same = same or _strip_conv(_alg(h, expr_of(h, cap[szname], depth=30))) == ct
+            ck.ob("table.element_address", f"{key}/chunk-i-at-base+i*chunk-size", ok and same, f"address {addr}; stride {szs} {'==' if same else '!='} chunk size", g.loc(i), what="element i of a chunked buffer records an address other than base + i*chunk size")
+            continue
+        # (D) hash buckets: bytes and address both come from the bucket descriptor
+        if "location" in repr(addr) and "bucket" in repr(addr):
+            ck.ob("table.element_address", f"{key}/bucket-location", addr == ("agg", "Some", ("call", "location", "up:bucket")), f"{addr}", g.loc(i))
+            continue
+        ck.ob("table.element_address", f"{key}/recognised-shape", False, f"data {ds[:160]} address {repr(addr)[:160]}", g.loc(i), what="element bytes/address pairing of an unrecognised shape (fails closed)")
+
+
+def _find_calls(t, name, out=None):
+    out = [] if out is None else out
+    if isinstance(t, tuple):
+        if t[0] == "call" and t[1] == name:
+            out.append(t)
+        for x in t[1:]:
+            _find_calls(x, name, out)
+    return out
+
+
 def json_places(rv):
     """all projection elements mentioned in an rvalue, as one string"""
     import json as _j
@@ -437,6 +577,7 @@ def rule_literal_arity(ck):
 
 
 def run(ck):
+    rule_element_address(ck)
     rule_literal_arity(ck)
     rule_literal_lossless(ck)
     rule_slice(ck)
